@@ -28,6 +28,10 @@ CLAIMED = {
   text="Bounded symbolic execution of the real relay (processFrame, header/data/priority/rstStream/pushPromise, enqueue/emit, continuation reassembly, queued frame senders, forwardPreface) together with the real x/net http2.Framer and hpack encoder/decoder, all from SSA: frame scripts are written by a harness-side Framer (so only RFC-valid frames arise), relayed, and parsed on the far side by another Framer and an HPACK decoder fed in wire order; per stream the received sequence must equal the sent one (decoded field lists, DATA bytes, END_STREAM position, RST codes, priorities, promised ids) and connection frames must have identical contents. DATA bytes, priority fields, error codes, PING/GOAWAY payloads and promised ids are symbolic (decided by z3); fragmentation points, padding, END_STREAM placement, direction and the receiver's window schedule are enumerated.",
   note="Bounds: one stream lifecycle (header block whole/2/3 frames x priority x padding x END_STREAM, <=2 DATA frames of 0 or 2 symbolic bytes, trailers/empty END_STREAM/RST), a two-stream scenario with DATA blocked by a zero stream window, single connection-level frames in both directions, preface cut at every point. Sequential schedule; header contents from a small concrete set (HPACK itself is x/net's). Known findings listed in known_findings.txt: HPACK encode-at-enqueue reordering, continued PUSH_PROMISE rejected by the pinned x/net Framer. Trusted: go/ssa, symgo, z3.",
   ref="DESIGN.md section 6, C08"),
+ "C11": dict(
+  text="Bounded symbolic execution of the real gRPC adapter/emitter (AsStreamProcessorFactory, adapter.Header/Data, emitter.Message, gunzip/deflate, with bytes.Buffer and encoding/binary from SSA) on message sequences with symbolic payload bytes and compressed flags, under every grpc-encoding, for every set of cut points of the length-prefixed byte stream into DATA frames (exhaustive within the bound), END_STREAM on the last data frame or a separate empty one, both directions. An independent byte-level parser in the harness checks that the recording pass-through processor saw exactly the decompressed messages with end-of-stream once and last, and that the destination sink received the same messages in the same wire format and encoding with END_STREAM exactly once after the last message; non-gRPC streams must pass byte for byte.",
+  note="Bounds: <=2 messages of <=1 byte in <=3 frames (quick), <=3 messages of <=2 bytes in <=3 frames (thorough). gzip/deflate/snappy are an injective tagged-framing codec model in the engine (stream and block snappy are different codecs); native replay of counterexamples uses the real codecs. Hook: overlay-only constructor h2.VerifNewProcessors. Trusted: go/ssa, symgo, z3.",
+  ref="DESIGN.md section 6, C11"),
 }
 
 NOT_YET = "check not built yet in this round; planned with the same technique (DESIGN.md section 6)"
